@@ -29,6 +29,11 @@ def gen(rng, tier):
     for _ in range(n):
         docs, _ = K.gen_docs(rng, n_docs=rng.randint(3, 14), maxlen=30, vocab=rng.choice([2, 3, 5]), long_doc=0.0)
         docs = [d or [] for d in docs]
+        big = len(cases) % 5 == 4
+        if big:
+            # the shared-similarity family runs on a corpus large enough for numpy to release the GIL inside the similarity
+            # (element-wise loops over more than ~500 rows), so that threads really overlap there
+            docs = [[rng.randrange(3) for _ in range(rng.randint(0, 5))] for _ in range(rng.randint(900, 1600))]
         nd = len(docs)
         voc = K.vocab_of(docs) or [0]
         # shared pool: base + a few views
@@ -67,12 +72,12 @@ def gen(rng, tier):
             # one similarity OBJECT shared by every thread (as a caller passing `similarity=sim` everywhere does), scoring
             # different arrays of the pool at the same time
             kind = rng.choice(["classic", "legacy", "bm25", "edismax_classic", "user_lennorm"])
-            qs = [["simscore", rng.randrange(len(sizes)), rng.choice(voc), kind] for _ in range(nth)]
+            qs = [["simscore", rng.randrange(len(sizes)), rng.choice(voc), kind] for _ in range(max(nth, 6))]
             qs += [["simscore", 0, rng.choice(voc), kind], ["simscore", len(sizes) - 1, rng.choice(voc), kind]]
         nact = 3 * len(qs)
         sched = [rng.randrange(len(qs)) for _ in range(nact)]
         cases.append({"docs": docs, "cache_gt": rng.choice([0, 1, 25]), "setup": setup, "queries": qs, "sched": sched,
-                      "switch": rng.choice([1e-6, 1e-5, 5e-3]), "rounds": 3})
+                      "switch": rng.choice([1e-6, 1e-5, 5e-3]), "rounds": 6 if big else 3})
     return cases
 
 
